@@ -236,6 +236,7 @@ let op_rewrite opidx impl toks =
   | _ -> ()
 
 (* ---- C14: address matching ---- *)
+let impl_all_lines : string list list ref = ref []     (* every observation line of the implementation for the current op *)
 let op_addr opidx impl toks =
   match toks with
   | [ which; ty; fam; a; port ] ->
@@ -250,7 +251,19 @@ let op_addr opidx impl toks =
         | None -> List.rev acc in
       let l = all 0 [] in
       pr "obs %d addr %s\n" opidx (if l = [] then "none" else String.concat "," (List.map string_of_int l));
-      (match impl with
+      (* TLS-PSK candidates: among the blocks matching the source from the first one on, those sharing its tls context
+         (the harness: context i mod 2) that have an identity (i mod 3 <> 0) *)
+      if not srv then begin
+        let cand = match l with [] -> [] | f :: _ -> List.filter (fun j -> j mod 2 = f mod 2 && j mod 3 <> 0) l in
+        pr "obs %d pskall %s\n" opidx (if cand = [] then "none" else String.concat "," (List.map string_of_int cand));
+        (match List.filter (function "pskall" :: _ -> true | _ -> false) !impl_all_lines with
+         | [ [ "pskall"; r ] ] ->
+             let il = if r = "none" then [] else List.map int_of_string (String.split_on_char ',' r) in
+             (* every candidate is a block whose host list contains the source *)
+             spec opidx "C14_psk_candidates_match_source" (List.for_all (fun j -> List.mem j l) il) r
+         | _ -> ())
+      end;
+      (match (match impl with Some [ "pskall"; _ ] -> (match List.filter (function "addr" :: _ -> true | _ -> false) !impl_all_lines with [ x ] -> Some x | _ -> None) | x -> x) with
        | Some [ "addr"; r ] ->
            let first = if r = "none" then None else Some (nat_of_int (int_of_string (List.hd (String.split_on_char ',' r)))) in
            spec opidx "C14_first" (spec_find blocks ty s srv first) (Printf.sprintf "%s %s" which a)
@@ -401,7 +414,6 @@ let op_cert opidx impl toks =
 (* ---- C08 / C20 ---- *)
 let rec cstr_ml (l : n list) = match l with [] -> [] | x :: r -> if int_of_n x = 0 then [] else x :: cstr_ml r
 
-let impl_all_lines : string list list ref = ref []     (* every observation line of the implementation for the current op *)
 let op_realm opidx impl toks =
   match toks with
   | name :: users ->
